@@ -251,8 +251,9 @@ def _run(mod, prop, tier, args, tmpdir, t0):
         seen_keys.add(key)
         rc = 1
 
-    if rc == 0 and inconclusive:
-        rc = 2
+    if inconclusive:
+        if rc == 0:
+            rc = 2
         for w in inconclusive[:10]:
             print("INCONCLUSIVE property=%s %s" % (prop, w[:700]))
 
